@@ -24,5 +24,5 @@ def run(ctx):
         "accessors are total (C18)",
     ]
     rows, summ = RC.check_c17(ctx, led)
-    led.require_min("C17.version", rows, 128, "truth-table rows of the version selection")
+    led.require_min("C17.version", rows, 64, "truth-table rows of the version selection")
     led.undecided("C17.argparse", "text produced by argparse itself and argv that argparse rejects")
